@@ -2,10 +2,13 @@ package mon
 
 import (
 	"fmt"
+	"sync"
 
 	"verif/harness/core"
+	"verif/harness/gen"
 	"verif/harness/obs"
 
+	"github.com/z7zmey/php-parser/pkg/ast"
 	"github.com/z7zmey/php-parser/pkg/position"
 	"github.com/z7zmey/php-parser/pkg/token"
 )
@@ -36,7 +39,7 @@ func c18Sizes(p core.Params) []int {
 	return s
 }
 
-var c18Modes = []string{"token", "position", "token-pair", "position-pair"}
+var c18Modes = []string{"token", "position", "token-pair", "position-pair", "token-mixed", "position-mixed"}
 
 // long histories: (block size, requests) — many block boundaries, content checked
 // at every doubling of the request count and at the end
@@ -77,18 +80,125 @@ func c18holds(o c18obj) bool {
 	return *o.pos == position.Position{StartLine: o.id, EndLine: -o.id, StartPos: o.id * 3, EndPos: o.id*3 + 1}
 }
 
+// c18Trees: number of "several trees alive" cases — the pools as the library itself uses them:
+// 2..5 Parse calls (one after the other, or on goroutines) whose trees are all kept; every token
+// and position object of every tree must be distinct from those of the other trees, and every
+// tree must still read the same after all parses have finished.
+func c18Trees(p core.Params) int { return p.Pick(400, 20000) }
+
+func c18Pointers(root ast.Vertex) (toks map[*token.Token]bool, poss map[*position.Position]bool) {
+	toks, poss = map[*token.Token]bool{}, map[*position.Position]bool{}
+	for _, tr := range obs.Tokens(root) {
+		toks[tr.Tok] = true
+		if tr.Tok.Position != nil {
+			poss[tr.Tok.Position] = true
+		}
+	}
+	obs.Walk(root, func(n, parent ast.Vertex, role string, depth int) bool {
+		if obs.IsNil(n) {
+			return true
+		}
+		if p := n.GetPosition(); p != nil {
+			poss[p] = true
+		}
+		return true
+	})
+	return
+}
+
+func c18TreesAlive(c *core.Ctx, idx int) {
+	rnd := core.NewRand(c.P.Seed, "C18trees", idx)
+	k := 2 + rnd.Intn(4)
+	conc := rnd.Chance(1, 2)
+	type one struct {
+		pc   parseCase
+		root ast.Vertex
+		fp   string
+	}
+	trees := make([]one, k)
+	for i := range trees {
+		// mostly large error-free sources (several pool blocks), some ordinary workload inputs
+		if rnd.Chance(2, 3) {
+			trees[i].pc = parseCase{gen.Big(rnd.Split(fmt.Sprint("big", i)), []int{5000, 9000, 20000}[rnd.Intn(3)], bodyParses), pickVersion(rnd), "big"}
+		} else {
+			trees[i].pc = genParseCase(c.P.Seed, "C18trees", idx*8+i, 20)
+		}
+	}
+	w := core.W(trees[0].pc.Src, trees[0].pc.Ver).With("mode", "trees-alive").With("trees", fmt.Sprint(k)).With("concurrent", fmt.Sprint(conc))
+	c.Inflight(trees[0].pc.Src, "C18 trees-alive")
+	parse := func(i int) {
+		pr := obs.Parse(trees[i].pc.Src, trees[i].pc.Ver, true)
+		if pr.Panic == nil && pr.Root != nil {
+			trees[i].root = pr.Root
+			trees[i].fp = obs.Fingerprint(pr.Root, false)
+		}
+	}
+	if conc {
+		var wg sync.WaitGroup
+		for i := range trees {
+			wg.Add(1)
+			go func(i int) { defer wg.Done(); parse(i) }(i)
+		}
+		wg.Wait()
+	} else {
+		for i := range trees {
+			parse(i)
+		}
+	}
+	ownerT := map[*token.Token]int{}
+	ownerP := map[*position.Position]int{}
+	nobj := 0
+	for i := range trees {
+		if trees[i].root == nil {
+			continue
+		}
+		if now := obs.Fingerprint(trees[i].root, false); now != trees[i].fp {
+			c.Violation("pool|trees-alive|tree-changed-by-other-parse", fmt.Sprintf("tree %d of %d changed while the other parses ran: %s", i, k, obs.FirstDiff(trees[i].fp, now)), w)
+			return
+		}
+		ts, ps := c18Pointers(trees[i].root)
+		for t := range ts {
+			if j, dup := ownerT[t]; dup {
+				c.Violation("pool|trees-alive|token-shared-between-trees", fmt.Sprintf("one token object belongs to tree %d and tree %d (value %q)", j, i, t.Value), w)
+				return
+			}
+			ownerT[t] = i
+		}
+		for p := range ps {
+			if j, dup := ownerP[p]; dup {
+				c.Violation("pool|trees-alive|position-shared-between-trees", fmt.Sprintf("one position object belongs to tree %d and tree %d (%+v)", j, i, *p), w)
+				return
+			}
+			ownerP[p] = i
+		}
+		nobj += len(ts) + len(ps)
+	}
+	c.Add("trees_alive_cases", 1)
+	c.Add("trees_alive_objects_compared", int64(nobj))
+	c.Cover("mode", "trees-alive")
+	c.Cover("trees_alive", fmt.Sprintf("k=%d concurrent=%v", k, conc))
+	c.Max("max_objects_alive_across_trees", int64(nobj))
+	if nobj > 2048 {
+		c.NonTrivial([]byte("trees-alive"), []byte(fmt.Sprint(idx)))
+	}
+}
+
 func init() {
 	core.Register(&core.Check{
 		ID:   "C18",
-		Rule: "cases = {token,position} pool x {single, two interleaved pools} x block size (1..64 and boundary sizes; thorough 1..300 and up to 4097); each case is a history of 4*size+3 Get calls with all prefixes checked, plus long histories (200k / 1.5M requests for sizes 1,2,3,7,64,1000,1024,1025 and 4*size+3 requests for sizes 8192..100000) checked at every doubling and at the end; non-trivial = history crossed at least one block boundary; distinct by (mode, size, requests)",
+		Rule: "cases = {token,position} pool x {single, two interleaved pools of one size, 2..5 interleaved pools of different sizes} x block size (1..64 and boundary sizes; thorough 1..300 and up to 4097); each case is a history of 4*size+3 Get calls with all prefixes checked, plus long histories (200k / 1.5M requests for sizes 1,2,3,7,64,1000,1024,1025 and 4*size+3 requests for sizes 8192..100000) checked at every doubling and at the end; plus trees-alive cases: 2..5 Parse calls (sequential or on goroutines) whose trees are all kept — token and position objects pairwise distinct across the trees, every tree unchanged after the last parse; non-trivial = history crossed at least one block boundary; distinct by (mode, size, requests)",
 		Assumptions: []string{
 			"the public Pool API (NewPool, Get) is the only way the library obtains tokens and positions",
 			"block size 0 (Get returns nil) is outside the property's quantifier (positive sizes)",
 		},
-		Plan:       func(p core.Params) int { return (len(c18Sizes(p)) + len(c18Long(p))) * len(c18Modes) },
+		Plan:       func(p core.Params) int { return (len(c18Sizes(p))+len(c18Long(p)))*len(c18Modes) + c18Trees(p) },
 		Exhaustive: func(p core.Params) bool { return true },
 		Run: func(c *core.Ctx, idx int) {
 			sizes := c18Sizes(c.P)
+			if idx >= (len(sizes)+len(c18Long(c.P)))*len(c18Modes) {
+				c18TreesAlive(c, idx)
+				return
+			}
 			mode := c18Modes[idx%len(c18Modes)]
 			var size, requests int
 			long := false
@@ -101,18 +211,32 @@ func init() {
 			}
 			w := core.Witness{Cfg: map[string]string{"mode": mode, "block_size": fmt.Sprint(size), "requests": fmt.Sprint(requests)}}
 			rnd := core.NewRand(c.P.Seed, "C18", idx)
-			isTok := mode == "token" || mode == "token-pair"
+			isTok := mode == "token" || mode == "token-pair" || mode == "token-mixed"
 			npools := 1
-			if mode == "token-pair" || mode == "position-pair" {
+			psize := []int{size}
+			switch mode {
+			case "token-pair", "position-pair":
 				npools = 2
+				psize = []int{size, size}
+			case "token-mixed", "position-mixed":
+				// 2..5 pools of different block sizes alive at once (smaller, larger, neighbouring and PRNG sizes)
+				npools = 2 + rnd.Intn(4)
+				cand := []int{size/2 + 1, size * 2, size + 1, 1 + rnd.Intn(size), size*3 + 1, 1}
+				for i := 1; i < npools; i++ {
+					psize = append(psize, cand[rnd.Intn(len(cand))])
+				}
+				if long {
+					npools, psize = 3, []int{size, size/2 + 1, size * 2}
+				}
+				w.Cfg["pool_sizes"] = fmt.Sprint(psize)
 			}
 			var tp []*token.Pool
 			var pp []*position.Pool
 			for i := 0; i < npools; i++ {
 				if isTok {
-					tp = append(tp, token.NewPool(size))
+					tp = append(tp, token.NewPool(psize[i]))
 				} else {
-					pp = append(pp, position.NewPool(size))
+					pp = append(pp, position.NewPool(psize[i]))
 				}
 			}
 			total := requests * npools
@@ -133,8 +257,8 @@ func init() {
 			p = obs.Try(func() {
 				for i := 0; i < total && ok; i++ {
 					k := 0
-					if npools == 2 {
-						k = rnd.Intn(2)
+					if npools > 1 {
+						k = rnd.Intn(npools)
 					}
 					per[k]++
 					o := c18obj{id: i + 1}
@@ -165,7 +289,7 @@ func init() {
 					c18write(o)
 					objs = append(objs, o)
 					c.Add("gets", 1)
-					if (!long && (per[k]%size == 0 || per[k]%size == 1 || i%64 == 0)) || (long && i&(i-1) == 0) {
+					if (!long && (per[k]%psize[k] == 0 || per[k]%psize[k] == 1 || i%64 == 0)) || (long && i&(i-1) == 0) {
 						c.Add("full_content_checks", 1)
 						if !verifyAll(i + 1) {
 							ok = false
